@@ -1,6 +1,8 @@
 """C02 — lazy and eager validation agree; the lazy error report is exact."""
 from __future__ import annotations
 
+import copy
+import re
 from collections import Counter
 
 from .. import harness as H, model as M
@@ -9,12 +11,17 @@ from ..gen import build as B, parse as P, spec as G
 from . import common as C
 
 PID = "C02"
-SHARDS = {"quick": 4, "thorough": 16}
+SHARDS = {"quick": 8, "thorough": 16}
 N = {"quick": 3600, "thorough": 140000}
+# additional case indices (after the N cases above): subsampled validation,
+# coercing index levels with a re-used schema object
+N_SUB = {"quick": 900, "thorough": 36000}
+N_COERCE = {"quick": 600, "thorough": 24000}
 # reasons pandera files under the DATA category (the rest is SCHEMA)
 DATA_REASONS = {"INVALID_TYPE", "DATATYPE_COERCION", "DATAFRAME_CHECK", "CHECK_ERROR", "DUPLICATES",
                 "SERIES_CONTAINS_DUPLICATES", "ADD_MISSING_COLUMN_NO_DEFAULT", "MISMATCH_INDEX",
                 "PARSER_ERROR"}
+_ADDR = re.compile(r"0x[0-9a-fA-F]+")
 ROW_REASONS = {"SERIES_CONTAINS_NULLS", "SERIES_CONTAINS_DUPLICATES",
                "DATAFRAME_CHECK", "DUPLICATES"}
 
@@ -23,17 +30,33 @@ def new_run():
     return Run(PID, "exploration",
                "cases = (schema spec, table) from pvm.gen.spec biased to several "
                "simultaneous violations; each is validated eagerly and lazily by "
-               "the real code (pandas always, polars for backend-neutral specs); one case in "
+               "the real code (pandas always, polars for backend-neutral specs); pandas: two schema "
+               "objects per case, A validates eagerly then lazily, B lazily then eagerly - relations "
+               "(i) (ii) (iv) are judged between the two first runs AND between the two runs of one "
+               "object, and the second run of an object must equal (kind, normalised errors, counts) "
+               "the first run of the same mode on the other object; a forced workload re-uses the "
+               "schema object on frames / series whose Index / MultiIndex levels are stored as text / "
+               "float / int and need exact coercion (coerce on the level, the MultiIndex or the "
+               "DataFrameSchema; violations planted before retyping); a subsample workload validates "
+               "frames (joint unique=[...] in 85 %, duplicated rows planted outside and inside the "
+               "selection) with head= / tail= / sample=+random_state (n below, at and above len): "
+               "(i) (ii) (iv) with the same options on both sides, accept/reject and the lazily "
+               "reported cells against pvm.model of the selected rows (first h, last t, the rows "
+               "data.sample(k, random_state) draws, de-duplicated); one case in "
                "seven runs relations (i) (ii) (iv) under config_context(validation_depth="
                "SCHEMA_ONLY / DATA_ONLY) on a workload with parsing options and injected "
                "parser-stage failures (uncoercible value, unfillable default, missing column "
                "without default, Index schema on a MultiIndex); an internal exception on one "
                "side only is a raise mismatch; falsy labels and dtype-only schemas as in C01; "
-               "non-trivial = the data is rejected (there is a report to check); "
-               "distinct = canonical hash of (backend, spec, table)",
+               "non-trivial = the data is rejected (there is a report to check; subsample cases: and "
+               "the selection is a strict subset of the rows); "
+               "distinct = canonical hash of (backend / workload, spec, table, options)",
                ["cell-exact comparison only where pvm/model.py is exact "
                 "(well-typed columns, unique row labels, no repeated column labels)",
-                "two nulls in a unique field / joint uniqueness over nulls: not judged"])
+                "two nulls in a unique field / joint uniqueness over nulls: not judged",
+                "subsample: sampled rows are identified by their (unique) labels via "
+                "data.sample(k, random_state=r); which duplicate is 'the first' among sampled rows, "
+                "index failure-case positions among sampled rows, mixed object columns: not judged"])
 
 
 def model_cells(v, spec, table):
@@ -195,14 +218,14 @@ def one_sided_exception(run, spec, table, oe, ol, backend, tag="", depth=None):
                   classify_exc(spec, table, backend, oe, ol))
 
 
-def relations(run, spec, table, oe, ol, backend, tag="", depth=None):
+def relations(run, spec, table, oe, ol, backend, tag="", depth=None, extra=None):
     """(i) raise equivalence, (ii) eager error among the lazy errors, (iv) error
     counts == collected errors per reason.  Returns True when both runs reject
     through the documented channel (there is a report to look at)."""
     if "exc" in (oe.kind, ol.kind):
         one_sided_exception(run, spec, table, oe, ol, backend, tag, depth)
         return False
-    extra = {"backend": backend}
+    extra = dict(extra or {}, backend=backend)
     if depth:
         extra["depth"] = depth
     run.count(tag + "i:raise_equivalence_checked")
@@ -246,37 +269,96 @@ def relations(run, spec, table, oe, ol, backend, tag="", depth=None):
             run.count(f"{tag}other_category_error_collected")
     return True
 
+def osig(out):
+    """Order-free, comparable signature of an outcome (kind + normalised errors)."""
+    if out.kind == "exc":
+        return ("exc", H.exc_sig(out.exc))
+    if out.accepted:
+        return ("ok",)
+    errs = []
+    for e in out.errors:
+        cells = None if e.cells is None else tuple(sorted(repr(tuple(hv(x) for x in c)) for c in e.cells))
+        scalar = None if e.cells is not None else _ADDR.sub("0x", repr(e.scalar))[:300]
+        errs.append((e.reason, repr(e.column), repr(e.check_index), _ADDR.sub("0x", str(e.check)),
+                     cells, scalar, e.context))
+    counts = tuple(sorted((str(k), v_) for k, v_ in (out.error_counts or {}).items()))
+    return (out.kind, tuple(sorted(errs, key=repr)), counts)
+
+
+def four_runs(mk, data, **kw):
+    """Two schema objects, two validations each.  A: eager then lazy, B: lazy
+    then eager.  Returns (eager fresh, lazy fresh, eager reused, lazy reused):
+    the first validation of an object is the 'fresh' one."""
+    sa, sb = mk(), mk()
+    oe = H.run_validate(sa, data, **kw)
+    ol2 = H.run_validate(sa, data, lazy=True, **kw)
+    ol = H.run_validate(sb, data, lazy=True, **kw)
+    oe2 = H.run_validate(sb, data, **kw)
+    return oe, ol, oe2, ol2
+
+
+def same_object(run, spec, table, oe, ol, oe2, ol2, tag="", extra=None):
+    """One schema OBJECT validated twice.  (b) the outcome of the second
+    validation (lazy after eager on A / eager after lazy on B) equals the outcome
+    of the same mode on a schema object that had not validated anything;
+    (a) relations (i) (ii) (iv) between the two runs of the same object."""
+    extra = dict(extra or {}, backend="pandas")
+    for order, fresh, reused in (("lazy_after_eager", ol, ol2), ("eager_after_lazy", oe, oe2)):
+        run.count(f"{tag}reuse:{order}:equals_fresh_checked")
+        a, b = osig(fresh), osig(reused)
+        if a != b:
+            run.count(f"{tag}reuse:{order}:differs")
+            run.violation("outcome-depends-on-earlier-validation-with-the-same-schema-object",
+                          C.brief(spec, table, dict(extra, order=order, fresh=repr(a)[:1500],
+                                                    reused=repr(b)[:1500])),
+                          classify_reuse(spec, table, order, fresh, reused))
+    relations(run, spec, table, oe, ol2, "pandas", tag=tag + "reuse:eager_then_lazy:", extra=extra)
+    relations(run, spec, table, oe2, ol, "pandas", tag=tag + "reuse:lazy_then_eager:", extra=extra)
+
+
+def classify_reuse(spec, table, order, fresh, reused):
+    return None
+
+
 def judge_pandas(run, spec, table, muts):
     v = M.evaluate(spec, table)
     try:
         data = B.pandas_table(spec, table)
-        oe = H.run_validate(B.pandas_schema(spec), data)
-        ol = H.run_validate(B.pandas_schema(spec), data, lazy=True)
+        B.pandas_schema(spec)
     except Exception as e:
         run.count("build_error:" + type(e).__name__)
         return
+    oe, ol, oe2, ol2 = four_runs(lambda: B.pandas_schema(spec), data)
     key = canon_hash(["pandas", spec, table])
     run.case(key, not oe.accepted and oe.kind != "exc",
              sample={"backend": "pandas", "spec": spec, "table": table,
                      "eager": oe.kind, "lazy": ol.kind,
                      "lazy_errors": [(e.reason, e.column, e.check_index) for e in ol.errors]})
+    same_object(run, spec, table, oe, ol, oe2, ol2)
     # (i) (ii) (iv)
     if not relations(run, spec, table, oe, ol, "pandas"):
         return
     run.count(f"n_lazy_errors:{min(len(ol.errors), 6)}")
+    compare_report(run, spec, table, list(data.index), v, ol)
+
+
+def compare_report(run, spec, table, index_labels, v, ol, tag="", xtra=None):
+    """(iii) the lazily reported failure cells == the violating cells of the
+    model, for the rows of ``table`` whose labels are ``index_labels``."""
+    xtra = xtra or {}
     # (iii) exact cells
     if v.accept is None or not v.exact or C.has_dup_labels(table) or v.accept:
-        run.count("iii:skipped_not_exact")
+        run.count(tag + "iii:skipped_not_exact")
         if v.accept:
-            run.count("model_accept_but_rejected(C01)")
+            run.count(tag + "model_accept_but_rejected(C01)")
         return
     mi = bool(table.get("index")) and len(table["index"]["levels"]) > 1
-    labels = [mi_key(t) if mi else H.norm(t) for t in data.index]
+    labels = [mi_key(t) if mi else H.norm(t) for t in index_labels]
     if len(set(labels)) != len(labels) or any(l is None for l in labels) or \
             (mi and any(x is None for l in table["index"]["levels"] for x in l["values"])):
         # a cell is identified by (column, row label): with repeated / null labels
         # only the multiset of reported values per error can be compared
-        run.count("iii:values_only_compared(labels_not_unique_or_null)")
+        run.count(tag + "iii:values_only_compared(labels_not_unique_or_null)")
         mrows, _ = model_cells(v, spec, table)
         def canon(x):
             return repr(float(x)) if isinstance(x, (int, float)) and not isinstance(x, bool) else repr(x)
@@ -301,20 +383,20 @@ def judge_pandas(run, spec, table, muts):
             return
         if {k: x for k, x in want.items() if x} != got:
             run.violation("lazy-failure-case-values-differ-from-violating-cells",
-                          C.brief(spec, table, {"model": {str(k): x for k, x in want.items()},
-                                                "report": {str(k): x for k, x in got.items()}}), None)
+                          C.brief(spec, table, dict(xtra, model={str(k): x for k, x in want.items()},
+                                                    report={str(k): x for k, x in got.items()})), None)
         return
     mrows, mscal = model_cells(v, spec, table)
     irows, iscal = impl_cells(ol, table, mi, {l: i for i, l in enumerate(labels)})
-    run.count("iii:cells_compared")
+    run.count(tag + "iii:cells_compared")
     for e in v.errors:
-        run.count(f"iii:reason:{e.reason}")
+        run.count(f"{tag}iii:reason:{e.reason}")
     if mrows != irows:
         only_m = {str(k): sorted(map(repr, s - irows.get(k, set()))) for k, s in mrows.items() if s - irows.get(k, set())}
         only_i = {str(k): sorted(map(repr, s - mrows.get(k, set()))) for k, s in irows.items() if s - mrows.get(k, set())}
         run.violation("lazy-failure-cases-differ-from-violating-cells",
-                      C.brief(spec, table, {"missing_from_report": only_m,
-                                            "reported_but_conforming": only_i}),
+                      C.brief(spec, table, dict(xtra, missing_from_report=only_m,
+                                                reported_but_conforming=only_i)),
                       classify_cells(spec, v, only_m, only_i))
     ms, is_ = set(mscal), set(iscal)
     if ms != is_:
@@ -326,7 +408,7 @@ def judge_pandas(run, spec, table, muts):
                   "series_errors": any(e.where == "column" for e in v.errors)}
         kind = "lazy-report-misses-frame-constraint" if missing and not extra \
             else "lazy-report-frame-level-entries-differ"
-        run.violation(kind, C.brief(spec, table, detail), classify(spec, kind, detail))
+        run.violation(kind, C.brief(spec, table, dict(xtra, **detail)), classify(spec, kind, detail))
 
 
 def judge_polars(run, spec, table, muts):
@@ -403,11 +485,329 @@ def judge_depth(run, rng, depth, polars):
     relations(run, spec, table, oe, ol, backend, tag=tag, depth=depth)
 
 
+# ---------------------------------------------------------------- subsampled validation
+def sub_table(table, pos):
+    t = copy.deepcopy(table)
+    for c in t["columns"]:
+        c["values"] = [c["values"][i] for i in pos]
+    if t.get("index"):
+        for l in t["index"]["levels"]:
+            l["values"] = [l["values"][i] for i in pos]
+    return t
+
+
+def selected_positions(data, h, t, k, r):
+    """Row positions validate(head=h, tail=t, sample=k, random_state=r) is
+    documented to look at: the first h rows, the last t rows, the k rows
+    ``data.sample(k, random_state=r)`` draws; rows selected more than once are
+    de-duplicated.  Needs unique, hashable, non-null labels when k is given
+    (the sampled rows are identified by their labels); None otherwise."""
+    n = len(data)
+    pos = []
+    if h is not None:
+        pos += list(range(n))[:h]
+    if t is not None:
+        pos += list(range(n))[max(0, n - t):] if t else []
+    if k is not None:
+        labels = list(data.index)
+        try:
+            l2p = {l: i for i, l in enumerate(labels)}
+        except TypeError:
+            return None
+        if len(l2p) != n or any(l != l for l in labels):
+            return None
+        pos += [l2p[l] for l in data.sample(k, random_state=r).index]
+    out = []
+    for p in pos:
+        if p not in out:
+            out.append(p)
+    return out
+
+
+def gen_subsample_case(rng):
+    """frame schema, most of the time with joint uniqueness; rows duplicated
+    (over the jointly unique columns) outside and inside the selection."""
+    spec = G.gen_spec(rng, kind="frame", allow_regex=rng.random() < 0.25)
+    n = rng.choice([3, 4, 5, 6, 7, 8])
+    plain = [c for c in spec["columns"] if not c["regex"]]
+    uq = None
+    if rng.random() < 0.85:
+        uq = [c["name"] for c in rng.sample(plain, rng.randint(1, min(2, len(plain))))]
+        for c in plain:
+            if c["name"] in uq:
+                c["nullable"] = False
+                c["required"] = True
+                if rng.random() < 0.7:
+                    c["unique"] = False
+        spec["report_duplicates"] = rng.choice(["all", "all", "exclude_first", "exclude_last"])
+    spec["unique"] = uq
+    table = G.gen_table(rng, spec, nrows=n)
+    spec["unique"] = uq                    # gen_table drops it when rows repeat
+    cols = {c["name"]: c for c in table["columns"]} if not C.has_dup_labels(table) else {}
+    # selection
+    mode = rng.choice(["head", "head", "tail", "tail", "head+tail", "sample", "sample",
+                       "head+sample", "tail+sample", "head+tail+sample"])
+    h = t = k = r = None
+    if "head" in mode:
+        h = rng.choice([0, 1, 2, 2, 3, n // 2, n, n + 2])
+    if "tail" in mode:
+        t = rng.choice([0, 1, 2, 2, 3, n // 2, n, n + 2])
+    if "sample" in mode:
+        k = min(n, rng.choice([0, 1, 2, 2, 3, n // 2, n]))
+        r = rng.choice([0, 1, 7, 42])
+    if k is not None and rng.random() < 0.75:
+        # which duplicate is 'the first' among sampled rows is not judged:
+        # keep most sampled cases in the order-free region
+        spec["report_duplicates"] = "all"
+        for fs in spec["columns"] + list(spec.get("index") or []):
+            fs["report_duplicates"] = "all"
+    planted = []
+    if uq and n >= 2:
+        ucols = [cols[x] for x in uq if x in cols]
+        by = {x["name"]: x for x in plain}
+        # rows made distinct first (when the pool allows): the only duplicates
+        # are then the planted ones
+        if ucols and rng.random() < 0.6:
+            fs = by[ucols[0]["name"]]
+            ok = G.satisfying(fs)
+            if len(ok) >= n and ucols[0]["phys"] in (G.PHYS_OF[fs["dtype"]], "Int64"):
+                ucols[0]["values"] = rng.sample(ok, n)
+        # approximate selection (head / tail part; sampled rows are wherever they are)
+        inside = set(list(range(n))[:h or 0]) | set(list(range(n))[max(0, n - t):] if t else [])
+        outside = [i for i in range(n) if i not in inside]
+        inside = sorted(inside)
+        for _ in range(rng.choice([0, 1, 1, 1, 2])):
+            how = rng.choice(["out-out", "out-out", "out-in", "in-out", "in-in", "any"])
+            src = outside if how.startswith("out") else inside if how.startswith("in") else list(range(n))
+            dst = outside if how.endswith("out") else inside if how.endswith("in") else list(range(n))
+            if not src or not dst:
+                continue
+            i = rng.choice(src)
+            js = [j for j in dst if j != i]
+            if not js:
+                continue
+            j = rng.choice(js)
+            for c in ucols:
+                c["values"][j] = c["values"][i]
+            planted.append((how, i, j))
+    muts = G.mutate(rng, spec, table, k=rng.choice([0, 0, 1, 1, 2]))
+    kw = {}
+    if h is not None:
+        kw["head"] = h
+    if t is not None:
+        kw["tail"] = t
+    if k is not None:
+        kw["sample"], kw["random_state"] = k, r
+    return spec, table, kw, planted, muts
+
+
+def classify_sub(spec, table, kw, pos, detail):
+    return None
+
+
+def judge_subsample(run, rng):
+    spec, table, kw, planted, muts = gen_subsample_case(rng)
+    if not table["columns"]:
+        run.count("sub:skipped_no_columns")
+        return
+    C.count_labels(run, G.relabel(rng, spec, table, p=0.15))
+    try:
+        data = B.pandas_table(spec, table)
+        B.pandas_schema(spec)
+    except Exception as e:
+        run.count("build_error_sub:" + type(e).__name__)
+        return
+    n = len(data)
+    mk = lambda: B.pandas_schema(spec)
+    oe = H.run_validate(mk(), data, **kw)
+    ol = H.run_validate(mk(), data, lazy=True, **kw)
+    h, t, k, r = kw.get("head"), kw.get("tail"), kw.get("sample"), kw.get("random_state")
+    try:
+        pos = selected_positions(data, h, t, k, r)
+    except Exception as e:
+        run.count("sub:selection_error:" + type(e).__name__)
+        pos = None
+    strict_subset = pos is not None and len(pos) < n
+    run.case(canon_hash(["pandas-sub", spec, table, kw]),
+             not oe.accepted and oe.kind != "exc" and strict_subset,
+             sample={"backend": "pandas", "spec": spec, "table": table, "options": kw,
+                     "positions": pos, "planted_duplicates": planted,
+                     "eager": oe.kind, "lazy": ol.kind,
+                     "lazy_errors": [(e.reason, e.column, e.check_index) for e in ol.errors]})
+    for name in kw:
+        run.count(f"sub:option:{name}")
+    if spec.get("unique"):
+        run.count("sub:joint_unique_declared")
+    xtra = {"options": kw, "positions": pos}
+    both_reject = relations(run, spec, table, oe, ol, "pandas", tag="sub:", extra=xtra)
+    if "exc" in (oe.kind, ol.kind):
+        return
+    # ---- model of the selected rows
+    if pos is None:
+        run.count("undecided:sub:sampled_rows_not_identifiable(labels_repeated_or_null)")
+        return
+    for c in table["columns"]:
+        if c["phys"] == "object" and any(x is not None and not isinstance(x, str) for x in c["values"]):
+            # `str` is checked element by element: whether elements outside the
+            # selection count is not documented
+            run.count("undecided:sub:mixed_object_column")
+            return
+    order_free = spec.get("report_duplicates", "all") == "all" and all(
+        fs.get("report_duplicates", "all") == "all" or not fs.get("unique")
+        for fs in list(spec["columns"]) + list(spec.get("index") or []))
+    if k is not None and not order_free:
+        # which of two duplicates is 'the first' among sampled rows depends on
+        # the order the sampled rows are put in: not documented
+        run.count("undecided:sub:report_duplicates_order_among_sampled_rows")
+        return
+    sub = sub_table(table, pos)
+    v = M.evaluate(spec, sub)
+    vfull = M.evaluate(spec, table)
+    if v.accept is None:
+        run.count("undecided:sub:model_undecided")
+        return
+    dup_out = False
+    if spec.get("unique") and strict_subset and vfull.accept is not None:
+        dup_out = any(e.reason == "DUPLICATES" for e in vfull.errors) and \
+            not any(e.reason == "DUPLICATES" for e in v.errors)
+        if dup_out:
+            run.count("sub:duplicated_rows_only_outside_selection")
+        if any(e.reason == "DUPLICATES" for e in v.errors):
+            run.count("sub:duplicated_rows_inside_selection")
+    run.count("sub:model:verdict_checked")
+    if strict_subset and vfull.accept is not None and vfull.accept != v.accept:
+        run.count("sub:model:verdict_of_selection_differs_from_whole_frame")
+    if v.accept != ol.accepted:
+        detail = dict(xtra, model_accepts_selected_rows=v.accept, lazy=ol.kind,
+                      model_reasons=v.reasons(), lazy_reasons=ol.reasons(),
+                      planted_duplicates=planted)
+        run.violation("subsampled-verdict-differs-from-model-of-selected-rows",
+                      C.brief(spec, table, detail), classify_sub(spec, table, kw, pos, detail))
+        return
+    if not both_reject:
+        return
+    if k is not None and spec.get("index"):
+        # failure cases of an index component are positions among the validated
+        # rows; the order of sampled rows is not documented
+        run.count("undecided:sub:index_positions_among_sampled_rows")
+        return
+    labels = list(data.index)
+    compare_report(run, spec, sub, [labels[p] for p in pos], v, ol, tag="sub:",
+                   xtra=dict(xtra, whole_table=table, planted_duplicates=planted))
+
+
+# ---------------------------------------------------------------- coercing index levels, schema object re-used
+def retype_level(rng, fs, lev):
+    """Store a level as another physical type from which coercion to the
+    declared dtype is exact (text / float for int, int / text for float, text
+    for datetime)."""
+    d, vals = fs["dtype"], lev["values"]
+    if any(v is None for v in vals) or lev["phys"] != G.PHYS_OF[d]:
+        return None
+    if d == "int64":
+        if rng.random() < 0.65 or not all(abs(v) < 2 ** 50 for v in vals):
+            lev["phys"], lev["values"] = "object", [str(v) for v in vals]
+            return "int_as_text"
+        lev["phys"], lev["values"] = "float64", [float(v) for v in vals]
+        return "int_as_float"
+    if d == "float64":
+        if all(float(v).is_integer() and abs(v) < 2 ** 50 for v in vals) and rng.random() < 0.5:
+            lev["phys"], lev["values"] = "int64", [int(v) for v in vals]
+            return "float_as_int"
+        lev["phys"], lev["values"] = "object", [repr(float(v)) for v in vals]
+        return "float_as_text"
+    if d == "datetime":
+        lev["phys"], lev["values"] = "object", list(vals)
+        return "datetime_as_text"
+    return None
+
+
+def gen_coerce_index_case(rng):
+    kind = rng.choice(["frame", "frame", "frame", "series"])
+    spec = G.gen_spec(rng, kind=kind, max_cols=2, allow_index=False, allow_regex=False,
+                      allow_frame_opts=rng.random() < 0.3)
+    nlev = rng.choice([1, 2, 2, 2, 3])
+    levels = []
+    for i in range(nlev):
+        dtype = rng.choice(["int64", "int64", "int64", "float64", "str", "datetime"])
+        fs = G.gen_field(rng, "i%d" % i if nlev > 1 else rng.choice(["i0", "i0", None]), dtype)
+        if nlev > 1 and rng.random() < 0.3:
+            fs["unique"] = True
+        levels.append(fs)
+    spec["index"] = levels
+    table = G.gen_table(rng, spec, nrows=rng.choice([1, 2, 3, 4, 5]))
+    # violations that stay violations after the coercion (planted before the
+    # levels are retyped)
+    muts = G.mutate(rng, spec, table, k=rng.choice([0, 1, 1, 2]))
+    where = rng.choice(["level", "level", "level", "level", "multiindex" if nlev > 1 else "level",
+                        "schema" if kind == "frame" else "level"])
+    opts = ["coerce_on:" + where]
+    if where == "level":
+        some = False
+        for fs in levels:
+            if rng.random() < 0.7:
+                fs["coerce"] = some = True
+        if not some:
+            levels[0]["coerce"] = True
+    elif where == "schema":
+        spec["coerce"] = True
+    tl = (table.get("index") or {}).get("levels") or []
+    if len(tl) == nlev:
+        for fs, lev in zip(levels, tl):
+            if rng.random() < 0.8:
+                how = retype_level(rng, fs, lev)
+                if how:
+                    opts.append(how + (":coerced" if fs.get("coerce") or where != "level" else ":not_coerced"))
+    return spec, table, where, opts, muts
+
+
+def judge_coerce_reuse(run, rng):
+    spec, table, where, opts, muts = gen_coerce_index_case(rng)
+    if not table["columns"]:
+        return
+
+    def mk():
+        s = B.pandas_schema(spec)
+        if where == "multiindex":
+            s.index.coerce = True
+        return s
+    try:
+        data = B.pandas_table(spec, table)
+        mk()
+    except Exception as e:
+        run.count("build_error_coerce:" + type(e).__name__)
+        return
+    oe, ol, oe2, ol2 = four_runs(mk, data)
+    nlev = len(spec["index"])
+    shape = ("MultiIndex" if nlev > 1 else "Index") + ":" + spec["kind"]
+    run.case(canon_hash(["pandas-coerce-index", spec, table, where]),
+             not oe.accepted and oe.kind != "exc",
+             sample={"backend": "pandas", "spec": spec, "table": table, "options": opts,
+                     "eager": oe.kind, "lazy": ol.kind,
+                     "lazy_errors": [(e.reason, e.column, e.check_index) for e in ol.errors]})
+    run.count("coerce_index:" + shape)
+    for o in opts:
+        run.count("coerce_index:" + o)
+    if nlev > 1 and where == "level" and any(o.endswith(":coerced") for o in opts):
+        run.count("coerce_index:multiindex_level_coercion_needed")
+    run.count("coerce_index:first_run:" + ("accept" if oe.accepted else oe.kind))
+    xtra = {"options": opts}
+    same_object(run, spec, table, oe, ol, oe2, ol2, tag="coerce_index:", extra=xtra)
+    relations(run, spec, table, oe, ol, "pandas", tag="coerce_index:", extra=xtra)
+
+
 def run(run, ctx):
-    n = N[ctx.tier]
-    for i in ctx.cases(n):
+    n0 = N[ctx.tier]
+    n1 = n0 + N_SUB[ctx.tier]
+    for i in ctx.cases(n1 + N_COERCE[ctx.tier]):
         rng = ctx.rng(PID, i)
-        if i % 7 == 5:
+        if i >= n1:
+            # coercing index levels, one schema object validated twice
+            judge_coerce_reuse(run, rng)
+        elif i >= n0:
+            # head= / tail= / sample= with joint uniqueness
+            judge_subsample(run, rng)
+        elif i % 7 == 5:
             judge_depth(run, rng, "SCHEMA_ONLY" if (i // 7) % 2 == 0 else "DATA_ONLY",
                         polars=(i // 14) % 4 == 3)
         elif i % 4 == 3:
@@ -465,5 +865,40 @@ def finalize(run, ctx):
                     ("depth:SCHEMA_ONLY:polars:i:raise_equivalence_checked", 10),
                     ("depth:DATA_ONLY:polars:i:raise_equivalence_checked", 10),
                     ("labels:falsy_label_case", 190), ("dtype_only_schema", 35),
-                    ("config_monitor:validate_calls_bracketed", 1500)]:
+                    ("config_monitor:validate_calls_bracketed", 1500),
+                    # one schema object validated twice (general workload)
+                    ("reuse:lazy_after_eager:equals_fresh_checked", 550),
+                    ("reuse:eager_after_lazy:equals_fresh_checked", 550),
+                    ("reuse:eager_then_lazy:i:raise_equivalence_checked", 550),
+                    ("reuse:lazy_then_eager:i:raise_equivalence_checked", 550),
+                    ("reuse:eager_then_lazy:ii:eager_in_lazy_checked", 380),
+                    ("reuse:lazy_then_eager:ii:eager_in_lazy_checked", 380),
+                    ("reuse:eager_then_lazy:iv:error_counts_checked", 380),
+                    ("reuse:lazy_then_eager:iv:error_counts_checked", 380),
+                    # coercing index levels, schema object validated twice
+                    ("coerce_index:i:raise_equivalence_checked", 140),
+                    ("coerce_index:ii:eager_in_lazy_checked", 85),
+                    ("coerce_index:iv:error_counts_checked", 85),
+                    ("coerce_index:reuse:lazy_after_eager:equals_fresh_checked", 140),
+                    ("coerce_index:reuse:eager_after_lazy:equals_fresh_checked", 140),
+                    ("coerce_index:reuse:eager_then_lazy:i:raise_equivalence_checked", 140),
+                    ("coerce_index:reuse:lazy_then_eager:i:raise_equivalence_checked", 140),
+                    ("coerce_index:reuse:eager_then_lazy:ii:eager_in_lazy_checked", 85),
+                    ("coerce_index:reuse:lazy_then_eager:ii:eager_in_lazy_checked", 85),
+                    ("coerce_index:reuse:eager_then_lazy:iv:error_counts_checked", 85),
+                    ("coerce_index:reuse:lazy_then_eager:iv:error_counts_checked", 85),
+                    ("coerce_index:multiindex_level_coercion_needed", 55),
+                    ("coerce_index:first_run:accept", 50),
+                    ("coerce_index:MultiIndex:frame", 80), ("coerce_index:MultiIndex:series", 25),
+                    ("coerce_index:Index:frame", 20),
+                    ("coerce_index:coerce_on:schema", 20), ("coerce_index:coerce_on:multiindex", 15),
+                    ("coerce_index:int_as_text:coerced", 60),
+                    # head= / tail= / sample= (joint uniqueness, duplicated rows)
+                    ("sub:i:raise_equivalence_checked", 220), ("sub:ii:eager_in_lazy_checked", 155),
+                    ("sub:iv:error_counts_checked", 155), ("sub:model:verdict_checked", 170),
+                    ("sub:iii:cells_compared", 65), ("sub:iii:reason:DUPLICATES", 40),
+                    ("sub:duplicated_rows_only_outside_selection", 45),
+                    ("sub:duplicated_rows_inside_selection", 30),
+                    ("sub:model:verdict_of_selection_differs_from_whole_frame", 35),
+                    ("sub:option:head", 110), ("sub:option:tail", 110), ("sub:option:sample", 110)]:
         run.floors[name] = m
